@@ -17,6 +17,10 @@ import (
 	"testing"
 	"time"
 
+	"github.com/ollama/ollama/api"
+	"github.com/ollama/ollama/discover"
+	"github.com/ollama/ollama/format"
+	"github.com/ollama/ollama/llm"
 	"github.com/ollama/ollama/zzverif"
 )
 
@@ -99,7 +103,7 @@ func newSchedGen(rng *zzverif.Rng) *schedGen {
 	g.routed = []int{0, 0, 2, 2, 4, 8}[rng.Intn(6)]
 	var open []schedEv
 	// directed openings (the random walk reaches these states too rarely); the walk continues after them
-	switch rng.Intn(30) {
+	switch rng.Intn(34) {
 	case 2: // a fixed parallel factor, a model that does not fit next to the one still loading: it is put back on the queue
 		// and must still be started with ITS options (NumCtx x factor), and then be reused by the same request again
 		g.cfg.cpu, g.cfg.ngpus, g.gpumem, g.np = 0, 2, 1, []int{2, 2, 4, 0}[rng.Intn(4)]
@@ -147,6 +151,35 @@ func newSchedGen(rng *zzverif.Rng) *schedGen {
 		open = append(open, schedEv{kind: "ping", a: 0, b: 2}, schedEv{kind: sub, a: 0, sess: g.sess()},
 			schedEv{kind: "done", a: 1}, schedEv{kind: "pingdone", a: 0, b: 1})
 		g.tags["open_cancel_during_ping"]++
+	case 18, 19: // CPU mode: a model is loaded and the free system memory is near / below what a further model needs: evict first
+		g.cfg.cpu, g.cfg.ngpus = 1, 1
+		g.cfg.maxRunners = []int{0, 3}[rng.Intn(2)]
+		g.nModels = 3
+		g.nReqs = max(g.nReqs, 3)
+		a, b := rng.Intn(3), 0
+		for b = rng.Intn(3); b == a; b = rng.Intn(3) {
+		}
+		k := rng.Intn(2)
+		open = []schedEv{{kind: "submit", a: a, sess: zzverif.Pick(rng, []string{"L", "L", "S", "0"})}, {kind: "loaddone", a: 0, b: 1}}
+		if rng.Chance(1, 2) {
+			open = append(open, schedEv{kind: "done", a: 0})
+		}
+		open = append(open, schedEv{kind: "sysmem", a: g.nearSysmem(b, k)}, schedEv{kind: "submit", a: b, b: k, sess: g.sess()})
+		g.tags["open_cpu_fit_boundary"]++
+	case 20: // a delayed request (>= 2 GPUs, one loading, no room on the other) while the queue is completely full
+		g.cfg.cpu, g.cfg.ngpus, g.gpumem = 0, 2, 1
+		g.cfg.maxQueue = rng.Range(1, 2)
+		if g.cfg.maxRunners == 1 {
+			g.cfg.maxRunners = 0
+		}
+		g.nModels = 3
+		g.nReqs = max(g.nReqs, g.cfg.maxQueue+3)
+		open = []schedEv{{kind: "submit", a: 0, sess: "L"}, {kind: "submit", a: 1, sess: "L"}}
+		for i := 0; i < g.cfg.maxQueue; i++ {
+			open = append(open, schedEv{kind: "submit", a: rng.Intn(3), sess: g.sess()})
+		}
+		open = append(open, schedEv{kind: "advance", a: 100}, schedEv{kind: "loaddone", a: 0, b: 1}, schedEv{kind: "advance", a: 100})
+		g.tags["open_delayed_with_full_queue"]++
 	case 12, 13: // a reload (12) / an eviction (13) waits for a BUSY runner; an UNRELATED model is unloaded during the wait (the pending
 		// loop wakes up, must see that its runner is still there and wait again); then the old request ends
 		g.nModels = max(g.nModels, 2)
@@ -363,6 +396,32 @@ func (g *schedGen) nearBoundary(m, k int) int {
 	return max(2, b-1-g.rng.Intn(w+w/4))
 }
 
+// nearSysmem: a free-system-memory value (KiB) around what model m needs in CPU mode (the real estimate's TotalSize, never
+// less than the sum of its tensors), mostly below it (the scheduler must evict first), sometimes just above
+func (g *schedGen) nearSysmem(m, class int) int {
+	np := g.np
+	if np <= 0 {
+		np = defaultParallel
+	}
+	opts := api.DefaultOptions()
+	opts.NumCtx = schedNumCtx(class) * np
+	cpu := discover.GpuInfo{Library: "cpu"}
+	cpu.TotalMemory, cpu.FreeMemory = 32*format.GigaByte, 26*format.GigaByte
+	need := llm.EstimateGPULayers([]discover.GpuInfo{cpu}, schedGGML[m], nil, opts, np).TotalSize
+	var tensors uint64
+	for _, t := range schedGGML[m].Tensors().Items() {
+		tensors += t.Size()
+	}
+	b := int(max(need, tensors)/1024) + 1
+	switch g.rng.Intn(6) {
+	case 0:
+		return b + g.rng.Intn(64)
+	case 1:
+		return max(1, b-1)
+	}
+	return max(1, b-1-g.rng.Intn(b))
+}
+
 type schedCand struct {
 	w   int
 	tag string
@@ -501,6 +560,18 @@ func (g *schedGen) mainEvent(r *schedRun) (schedEv, bool) {
 					kind = "submitr"
 				}
 				add(5, "fit_boundary_submit", schedEv{kind: "gpumem", a: g.nearBoundary(m, k)}, schedEv{kind: kind, a: m, b: k, sess: g.sess()})
+			}
+		}
+		if g.cfg.cpu == 1 && len(r.prev.loaded) > 0 {
+			var ms []int
+			for m := 0; m < g.nModels; m++ {
+				if _, ok := r.prev.loaded[m]; !ok {
+					ms = append(ms, m)
+				}
+			}
+			if len(ms) > 0 {
+				m, k := zzverif.Pick(g.rng, ms), g.rng.Intn(2)
+				add(4, "cpu_fit_boundary_submit", schedEv{kind: "sysmem", a: g.nearSysmem(m, k)}, schedEv{kind: "submit", a: m, b: k, sess: g.sess()})
 			}
 		}
 		if left >= 2 && g.cfg.maxQueue <= 2 {
@@ -659,6 +730,9 @@ func (g *schedGen) mainEvent(r *schedRun) (schedEv, bool) {
 	}
 	if r.gpumem >= 2 {
 		add(2, "gpumem_reset", schedEv{kind: "gpumem", a: 0})
+	}
+	if r.sysmem > 0 {
+		add(2, "sysmem_reset", schedEv{kind: "sysmem", a: 0})
 	}
 	if r.cen.mutex == 0 {
 		ms := []int{20, 20, 20, 150, 150, 4000000}[g.rng.Intn(6)]
